@@ -977,6 +977,70 @@ pub fn gen_corpus(rng: &mut Rng, n: usize) -> String {
     s
 }
 
+/// one construct repeated n times inside a block (anything that is counted per file, per block or per
+/// thread shows at such sizes), followed by a function that must still be instrumented
+pub fn gen_repeat(rng: &mut Rng, n: usize) -> String {
+    let k = rng.below(12);
+    let mut s = String::from("var o = {}, x;\nfunction many(a, b) {\n");
+    for i in 0..n {
+        let line = match k {
+            0 => format!("  delete o.p{};", i),
+            1 => format!("  {{ x = a + b; }}"),
+            2 => format!("  o.p{} += a;", i),
+            3 => format!("  a?.b?.trim();"),
+            4 => format!("  x = `t${{a}}{}`;", i),
+            5 => format!("  (() => a + b)();"),
+            6 => format!("  label{}: for (;;) break label{};", i, i),
+            7 => format!("  if (a) x = a + b; else x = b;"),
+            8 => format!("  x = typeof a + void b;"),
+            9 => format!("  x = a.trim().concat(b);"),
+            10 => format!("  try {{ x = a + b; }} catch (e{}) {{ delete o[e{}]; }}", i, i),
+            _ => format!("  x = function () {{ return delete o.q{}; }};", i),
+        };
+        s.push_str(&line);
+        s.push('\n');
+    }
+    s.push_str("  return x;\n}\nfunction after(a, b) { return a + b; }\n");
+    s
+}
+
+/// module-level syntax (import / export forms, import attributes, `import.meta`, top-level await,
+/// and the stage-1 `export v from` that parsers accept only behind an option)
+pub const MODULE_ZOO: &[&str] = &[
+    "export * as ns from 'm';",
+    "export * from 'm2';",
+    "export { default } from 'm';",
+    "export { default as d2, x as y } from 'm';",
+    "import def, * as ns2 from 'm';",
+    "import { a as b1, default as c1 } from 'm';",
+    "import 'side-effect';",
+    "export const ex1 = (a, b) => a + b;",
+    "export function ex2(a, b) { return `${a}${b}`; }",
+    "export class Ex3 { m(a, b) { return a.concat(b); } }",
+    "import j from './d.json' with { type: 'json' };",
+    "const lazy = () => import('m').then((m) => m.a + m.b);",
+    "const here = import.meta.url + '#x';",
+    "const tla = await Promise.resolve('a' + here2());\nfunction here2() { return 'h'; }",
+    "export v from 'm';",
+    "export v2, { x2 } from 'm';",
+    "export { fn0 as 'string name' };",
+    "import { 'string name' as sn } from 'm';",
+    "let q1, q2; export { q1 as default, q2 };",
+];
+
+pub fn gen_module(rng: &mut Rng, n: usize) -> String {
+    let mut s = String::from("function fn0(x) { return x; }\n");
+    for _ in 0..n {
+        s.push_str(*rng.pick(MODULE_ZOO));
+        s.push('\n');
+    }
+    if rng.chance(1, 3) {
+        s.push_str(*rng.pick(&["export default function (a, b) { return a + b; }\n", "export default (a, b) => a + b;\n", "export default class { m(a) { return a + 'x'; } }\n", "export default fn0('a') + fn0('b');\n"]));
+    }
+    s.push_str("export function always(a, b) { return a + b; }\n");
+    s
+}
+
 pub fn gen_zoo(rng: &mut Rng, n: usize) -> String {
     let mut s = String::from("function fn0(x) { return x; }\nfunction super_ok(x) { return x; }\nfunction with_ok(x) { return x; }\nfunction* inner(a) { return a; }\nfunction trim(x) { return x; }\nfunction concat(x) { return x; }\nfunction substring(x) { return x; }\nfunction replace(x) { return fn0; }\nfunction slice(x) { return x; }\nfunction tag(s, ...v) { return s.raw.join(''); }\nclass Base { constructor() { this.v = 'base'; } }\nvar x, y = {};\n");
     for _ in 0..n {
